@@ -40,6 +40,23 @@ CLAIMS = {
         technique='Lean 4 proof (step rule + induction over the condition chain, reuse of the C08 invariant) + '
                   'model/implementation correspondence + call-log oracle',
         ref='DESIGN.md §5 C09'),
+    'C14': dict(
+        text='Lean 4 theorems about dtml-try / dtml-raise / dtml-return of the interpreter model, for ALL programs, class tables, '
+             'namespaces, fault plans and fuel: handler_selected (findHandler = FIRST handler naming the class, a base, or bare: '
+             'iff-characterisation over the handler list), no_handler_iff, matchBase_sound / matchBase_complete (transitive '
+             'base relation), try_no_exception, else_exception_propagates, unmatched_propagates, handler_rendered, '
+             'else_only_without_exception, handler_exception_propagates, handler_bindings (+ _scoped, from C08), return_not_caught, '
+             'return_stops_blocks, return_through_join/frame/raise, return_ends_call, return_ends_subtemplate, '
+             'finally_exactly_once (state after = body then finally once, on every path), finally_then_exception, '
+             'finally_then_return, finally_appended, finally_own_exception, raise_raises, raise_class_by_name/expr. '
+             'Correspondence: results and call traces of generated programs (handler lists over a class hierarchy with multiple '
+             'inheritance, nesting <= 3, return/raise in every block kind, sub-templates) with and without injected faults; '
+             'oracle: a reference evaluator written with plain Python try statements',
+        note='Trusted: Lean kernel; interpreter model validated (not verified) against the real classes; match_base modelled with '
+             'depth 16; messages of CPython-internal exceptions not compared',
+        technique='Lean 4 proof (case analysis of the interpreter on each outcome, list characterisation of find_handler) + '
+                  'model/implementation correspondence + Python-semantics reference evaluator',
+        ref='DESIGN.md §5 C14'),
     'C08': dict(
         text='Lean 4 theorems about the interpreter model (Render.lean: namespace stack, lookups with auto-call, '
              'expressions, every block tag, sub-template calls, dtml-return, exceptions, fault plans as part of the '
